@@ -63,6 +63,13 @@ gen_corpus() {
   # auxiliary key corpus (C16): registered with core.RegisterAux, not part of core.Packages()
   REGFN=RegisterAux gen_pkg vkus vk U-simple false false false false -generate_simple_unions -- $VK &
   REGFN=RegisterAux gen_pkg vkuw vk U-wrapper false true false false -- $VK &
+  # auxiliary leafref corpus (C30) and defaults corpus (C33): registered with core.RegisterAux as well.
+  # vdef-un.yang (union defaults) is only given to the simple-union package: the generator refuses defaults on wrapper unions.
+  local VLR="$VERIF/schemas/vlr.yang" VDEF="$VERIF/schemas/vdef.yang" VDEFUN="$VERIF/schemas/vdef-un.yang"
+  REGFN=RegisterAux gen_pkg vlrus vlr U-simple false false false false -generate_simple_unions -- $VLR &
+  REGFN=RegisterAux gen_pkg vlruw vlr U-wrapper false true false false -- $VLR &
+  REGFN=RegisterAux gen_pkg vdus vdef U-simple false false false false -generate_simple_unions -- $VDEF $VDEFUN &
+  REGFN=RegisterAux gen_pkg vduw vdef U-wrapper false true false false -- $VDEF &
   # auxiliary validation corpus (C07): min/max-elements, restricted unions, nested choices
   REGFN=RegisterAux gen_pkg vvalus vval U-simple false false false false -generate_simple_unions -- $VV &
   REGFN=RegisterAux gen_pkg vvaluw vval U-wrapper false true false false -- $VV &
@@ -73,10 +80,10 @@ gen_corpus() {
   wait
   ven_wanted && gen_ven_finish
   ps_wanted && gen_ps_finish
-  for p in vtus vtuw vocus vocuw voccs voccw vocco voccsh vkus vkuw vvalus vvaluw; do [ -s "$WORK/gen/$p/$p.go" ] || die "corpus package $p was not generated"; done
+  for p in vtus vtuw vocus vocuw voccs voccw vocco voccsh vkus vkuw vvalus vvaluw vlrus vlruw vdus vduw; do [ -s "$WORK/gen/$p/$p.go" ] || die "corpus package $p was not generated"; done
   {
     echo "package main"; echo; echo "import ("
-    for p in vtus vtuw vocus vocuw voccs voccw vocco voccsh vkus vkuw vvalus vvaluw $VEN_IMPORTS $PS_IMPORTS; do echo "	_ \"github.com/openconfig/ygot/zzverif/gen/$p\""; done
+    for p in vtus vtuw vocus vocuw voccs voccw vocco voccsh vkus vkuw vvalus vvaluw vlrus vlruw vdus vduw $VEN_IMPORTS $PS_IMPORTS; do echo "	_ \"github.com/openconfig/ygot/zzverif/gen/$p\""; done
     echo ")"
   } > "$WORK/imports_gen.go"
 }
